@@ -373,8 +373,9 @@ func c11Layouts(cfg Config, res *Result) {
 		}
 		two := rng.Bool()
 		// what the layout itself pulls in: its own neighbour
-		layoutOwn := rng.Pick([]string{"", `{% include "part.tpl" %}`, `{% ssi "note.txt" %}`})
-		layoutOwnOut := map[string]string{"": "", `{% include "part.tpl" %}`: "PART-" + ld, `{% ssi "note.txt" %}`: "NOTE-" + ld}[layoutOwn]
+		layoutOwn := rng.Pick([]string{"", `{% include "part.tpl" %}`, `{% ssi "note.txt" %}`, `{% include lz %}`, `{% include lz %}{% include lz %}`})
+		layoutOwnOut := map[string]string{"": "", `{% include "part.tpl" %}`: "PART-" + ld, `{% ssi "note.txt" %}`: "NOTE-" + ld, `{% include lz %}`: "PART-" + ld,
+			`{% include lz %}{% include lz %}`: "PART-" + ld + "PART-" + ld}[layoutOwn]
 		if two {
 			files["/"+gd+"/root.tpl"] = "G<{% block c %}g{% endblock %}|{% block e %}ge{% endblock %}>"
 			files["/"+ld+"/base.tpl"] = `{% extends "` + up(ld, gd+"/root.tpl") + `" %}{% block e %}` + layoutOwn + `{% endblock %}`
@@ -383,7 +384,7 @@ func c11Layouts(cfg Config, res *Result) {
 		}
 		var body, out strings.Builder
 		for q := 0; q < 1+rng.Intn(3); q++ {
-			switch rng.Intn(5) {
+			switch rng.Intn(7) {
 			case 0:
 				body.WriteString(`{% include "part.tpl" %}`)
 				out.WriteString("PART-" + pd)
@@ -396,6 +397,11 @@ func c11Layouts(cfg Config, res *Result) {
 			case 3:
 				body.WriteString(`{% import "lib.tpl" mm %}{{ mm() }}`)
 				out.WriteString("M-" + pd)
+			case 4:
+				// a macro imported from a third directory computes the same relative name there
+				files["/"+gd+"/mlib.tpl"] = "{% macro lm() export %}{% include lz %}{% endmacro %}"
+				body.WriteString(`{% import "/` + gd + `/mlib.tpl" lm %}{{ lm() }}`)
+				out.WriteString("PART-" + gd)
 			default:
 				body.WriteString(`{% include lz %}`)
 				out.WriteString("PART-" + pd)
